@@ -56,7 +56,7 @@ static cregex_node_t* parse_char_class(regex_parse_context *context) {
   const char *from = context->sp;
 
   for ( ; ; ) {
-    int ch = *context->sp++;
+    int ch = (unsigned char) *context->sp++;
     switch (ch) {
       case '\0':
         /* premature end of character class */
@@ -70,7 +70,7 @@ static cregex_node_t* parse_char_class(regex_parse_context *context) {
         .type = type, .from = from, .to = context->sp - 1
       });
       case '\\':
-        ch = *context->sp++;
+        ch = (unsigned char) *context->sp++;
         if (ch == '\0') {
           /* premature end of character class */
           return NULL;
@@ -79,7 +79,7 @@ static cregex_node_t* parse_char_class(regex_parse_context *context) {
       default:
 CHARACTER:
         if (*context->sp == '-' && context->sp[1] != ']') {
-          if (context->sp[1] < ch) {
+          if ((unsigned char) context->sp[1] < ch) {
             /* empty range in character class */
             return NULL;
           }
